@@ -22,7 +22,7 @@ import (
 	"github.com/google/wuffs/lib/interval"
 )
 
-var ops = []string{"add", "sub", "mul", "quo", "lsh", "rsh", "and", "or", "unite", "intersect", "rshbig"}
+var ops = []string{"add", "sub", "mul", "quo", "lsh", "rsh", "and", "or", "unite", "intersect", "rshbig", "andsc", "orsc"}
 
 func call(op string, x, y interval.IntRange) (interval.IntRange, bool) {
 	switch op {
@@ -38,9 +38,9 @@ func call(op string, x, y interval.IntRange) (interval.IntRange, bool) {
 		return x.TryLsh(y)
 	case "rsh", "rshbig":
 		return x.TryRsh(y)
-	case "and":
+	case "and", "andsc":
 		return x.TryAnd(y)
-	case "or":
+	case "or", "orsc":
 		return x.TryOr(y)
 	case "unite":
 		return x.TryUnite(y)
@@ -120,7 +120,7 @@ func (v ival) toRange(tr func(lo bool, b *big.Int) *big.Int) interval.IntRange {
 
 func ident(lo bool, b *big.Int) *big.Int { return b }
 
-type row [8]int64
+type row [9]int64
 
 const limit = 1 << 30
 
@@ -128,7 +128,7 @@ func mkrow(z interval.IntRange, ok bool, alias bool, untr func(lo bool, b *big.I
 	var r row
 	if !ok {
 		// z must be IntRange{nil, nil} as documented; not part of the property, not checked.
-		return row{0, 0, 0, 0, 0, 0, b2i(alias), 1}
+		return row{0, 0, 0, 0, 0, 0, b2i(alias), 1, 0}
 	}
 	r[0] = 1
 	r[6] = b2i(alias)
@@ -219,6 +219,9 @@ func main() {
 	if *lift == "rshbig" {
 		nops = 11
 	}
+	if *lift == "sparse" {
+		nops = 13
+	}
 	rows := make([]row, 0, nops*len(u)*len(u))
 	lifted, plainMismatch := 0, 0
 	for oi := 0; oi < nops; oi++ {
@@ -303,6 +306,48 @@ func main() {
 						trY = func(lo bool, b *big.Int) *big.Int { return b.Add(b, c) }
 						applied = true
 					}
+				}
+				if *lift == "sparse" && (op == "andsc" || op == "orsc") {
+					// X' = [a*2^k, b*2^k]: all integers in between (not a box); see Interval.tla, SparseExpected
+					if !(xv.lf && xv.hf && yv.lf && yv.hf) || xv.empty() || yv.empty() {
+						rows = append(rows, row{2, 0, 0, 0, 0, 0, 0, 1, 0})
+						continue
+					}
+					e := *k
+					sc := func(lo bool, b *big.Int) *big.Int { return b.Lsh(b, e) }
+					xs, ys := xv.toRange(sc), yv.toRange(sc)
+					z, ok := call(op, xs, ys)
+					lifted++
+					r := row{b2i(ok), 0, 0, 0, 0, 0, 0, 1, 0}
+					if ok {
+						if z.Empty() || z[0] == nil || z[1] == nil {
+							r[1] = b2i(z.Empty())
+							r[7] = 0
+						} else {
+							m := new(big.Int).Mod(z[0], pow2(e))
+							L := new(big.Int).Rsh(new(big.Int).Set(z[0]), e)
+							hi := new(big.Int).Set(z[1])
+							F := int64(0)
+							if new(big.Int).Mod(hi, pow2(e)).Sign() != 0 {
+								// must then be H*2^k + (2^k - 1)
+								hi.Add(hi, big.NewInt(1))
+								F = 1
+							}
+							mh := new(big.Int).Mod(hi, pow2(e))
+							H := new(big.Int).Rsh(hi, e)
+							if F == 1 {
+								H.Sub(H, big.NewInt(1))
+							}
+							if m.Sign() != 0 || mh.Sign() != 0 || !L.IsInt64() || !H.IsInt64() || L.Int64() >= limit || L.Int64() <= -limit || H.Int64() >= limit || H.Int64() <= -limit {
+								r[7] = 0
+							} else {
+								r[2], r[3], r[4], r[5], r[8] = 1, L.Int64(), 1, H.Int64(), F
+							}
+						}
+						r[6] = b2i(aliasCheck(xs, ys, z))
+					}
+					rows = append(rows, r)
+					continue
 				}
 				x := xv.toRange(trX)
 				y := yv.toRange(trY)
